@@ -531,14 +531,20 @@ func buildFrag(r *fragR, ipd *mp4.InitProtectData) (*mp4.Fragment, error) {
 			all = append(all, sampleBytes(s)...)
 		}
 		frag.Mdat.SetData(all)
-	case "interval":
+	case "interval", "intervalThenFull":
+		// "intervalThenFull": the last sample goes in through AddFullSample after the intervals (the mdat then holds
+		// data parts AND monolithic data; the library keeps going without an error, so the relation is judged)
 		if !single {
 			return nil, reject("mode interval needs CreateFragment")
 		}
-		for i := 0; i < len(r.Samples); {
+		nIv := len(r.Samples)
+		if r.Mode == "intervalThenFull" && nIv > 0 {
+			nIv--
+		}
+		for i := 0; i < nIv; {
 			j := i + 1 + int(r.Samples[i].Seed%3)
-			if j > len(r.Samples) {
-				j = len(r.Samples)
+			if j > nIv {
+				j = nIv
 			}
 			iv := mp4.SampleInterval{FirstDecodeTime: r.Samples[i].Time}
 			for _, s := range r.Samples[i:j] {
@@ -550,6 +556,10 @@ func buildFrag(r *fragR, ipd *mp4.InitProtectData) (*mp4.Fragment, error) {
 				return nil, reject("AddSampleInterval: %v", err)
 			}
 			i = j
+		}
+		if r.Mode == "intervalThenFull" && nIv < len(r.Samples) {
+			s := r.Samples[nIv]
+			frag.AddFullSample(mp4.FullSample{Sample: mp4.NewSample(s.Flags, s.Dur, uint32(s.Size), s.Cto), DecodeTime: s.Time, Data: sampleBytes(s)})
 		}
 	default:
 		return nil, reject("unknown mode %q", r.Mode)
